@@ -392,6 +392,8 @@ func rulesC04(w *World, r *Report) {
 	r.floor("C04.R2 not-found returns of the registrar", nR, 1)
 	w.ruleRefKeyPins(r, "C04.R2 a miss inserts and takes the next ordinal")
 	w.ruleRefKeyIdentity(r, "C04.R6 the ref key identifies the container")
+	w.ruleTablesAppendOnly(r, "C04.R7 ref tables are append-only within a stream", []string{"Encoder", "Decoder"})
+	w.ruleNotifyAfterFinalValue(r, "C04.R5 references keep identity")
 
 	// R3 decoder: container readers
 	rd := w.fn("(*Decoder).ReadData")
@@ -835,6 +837,7 @@ func rulesC05(w *World, r *Report) {
 
 	// R3 class index forms
 	w.ruleObjectIndexForms(r, "C05.R3 class index forms")
+	w.ruleTablesAppendOnly(r, "C05.R5 reading or skipping a field leaves the numbering tables intact", []string{"Decoder"})
 
 	// R4 creation
 	nNew := 0
